@@ -3,29 +3,39 @@ From Furiko Require Import Admission.Validate Proofs.ValidateP.
 Open Scope list_scope.
 Open Scope Z_scope.
 
-(** An accepted JobConfig can be loaded by the cron scheduler under its own key.  The two
-    hypotheses are about the oracles (the cronexpr parser: parsability independent of the hash
-    id; the operator's default time zone parses); the validate stream checks the first on
-    every generated expression and reports a violation if it fails. *)
+(** An accepted JobConfig can be loaded by the cron scheduler under its own key: validation
+    parses every cron expression with that key as hash id (and with the empty id).  The one
+    hypothesis left is about the operator's configuration (the default time zone parses).
+    Before the repair of finding F18 validation tried the empty hash id only and this theorem
+    needed "parsability does not depend on the hash id", which is false of the real parser
+    (cronexpr accepts "H(0-0)/2 * * * *" under some ids and rejects it under others):
+    [c17_f18_witness] keeps the counterexample. *)
 Theorem c17_accepted_loadable :
   forall o hash jc,
-    (forall e h, or_parse o "" e = true -> or_parse o h e = true) ->
+    nonempty_s hash = true ->
     or_tz o (or_default_tz o) = true ->
-    valid_jc o jc = true -> loadable o hash (ac_sched jc) = true.
+    valid_jc o hash jc = true -> loadable o hash (ac_sched jc) = true.
 Proof. exact jc_accepted_loadable. Qed.
 Print Assumptions c17_accepted_loadable.
 
+Theorem c17_f18_witness :
+  or_parse f18_oracle "" "H(0-0)/2 * * * *" = true /\
+  loadable f18_oracle "ns/jc" (Some (mkAS (Some ("H(0-0)/2 * * * *", [], "")) false)) = false /\
+  valid_sched f18_oracle "ns/jc" (Some (mkAS (Some ("H(0-0)/2 * * * *", [], "")) false)) = false.
+Proof. exact f18_witness. Qed.
+Print Assumptions c17_f18_witness.
+
 (** ... and instantiated: the defaults of accepted options always render *)
 Theorem c17_accepted_instantiable :
-  forall o jc, valid_jc o jc = true -> exists m, default_subs (map fst (ac_opts jc)) = Some m.
+  forall o hash jc, valid_jc o hash jc = true -> exists m, default_subs (map fst (ac_opts jc)) = Some m.
 Proof. exact jc_accepted_instantiable. Qed.
 Print Assumptions c17_accepted_instantiable.
 
 (** what acceptance means, part by part *)
 Theorem c17_accepted_parts :
-  forall o jc, valid_jc o jc = true ->
+  forall o hash jc, valid_jc o hash jc = true ->
     (String.length (ac_name jc) <= 49)%nat /\ valid_tmpl (ac_tmpl jc) = true /\
-    valid_conc (ac_policy jc) (ac_maxc jc) = true /\ valid_sched o (ac_sched jc) = true /\
+    valid_conc (ac_policy jc) (ac_maxc jc) = true /\ valid_sched o hash (ac_sched jc) = true /\
     valid_options (ac_opts jc) = true.
 Proof. exact valid_jc_parts. Qed.
 Print Assumptions c17_accepted_parts.
@@ -63,8 +73,8 @@ Definition ex_jc : ajc :=
   mkAJC "nightly" "Forbid" (Some 1) (Some (mkAS (Some ("", ["H/5 * * * *"; "0 10 * * *"], "Asia/Singapore")) false))
         [(mkOpt "env" true (TSelect "" ["dev"; "prod"] false), false)] ex_tmpl.
 Example c17_nonvacuous :
-  valid_jc ex_or ex_jc = true /\ loadable ex_or "ns/nightly" (ac_sched ex_jc) = true /\
-  valid_jc ex_or (mkAJC "nightly" "Forbid" (Some 1) (Some (mkAS (Some ("", ["0 10 * * *"; ""], "")) false)) [] ex_tmpl) = false /\
+  valid_jc ex_or "ns/nightly" ex_jc = true /\ loadable ex_or "ns/nightly" (ac_sched ex_jc) = true /\
+  valid_jc ex_or "ns/nightly" (mkAJC "nightly" "Forbid" (Some 1) (Some (mkAS (Some ("", ["0 10 * * *"; ""], "")) false)) [] ex_tmpl) = false /\
   update_ok 100 (mkJV 0 0 0 0 0 0 0 0 0 1 (Some 50) true) (mkJV 0 0 0 0 0 0 0 0 0 1 (Some 50) true) = true /\
   update_ok 100 (mkJV 0 0 0 0 0 0 0 0 0 1 (Some 50) true) (mkJV 0 0 0 0 0 0 0 0 0 1 (Some 60) true) = false.
 Proof. vm_compute. repeat split; reflexivity. Qed.
